@@ -1,4 +1,4 @@
-CONSTANTS MaxLen = 0
+CONSTANTS MaxLen = 0 MaxLenK = 0 MaxLines = 0 MaxDepth = 0
 INIT TInit
 NEXT TNext
 INVARIANT Emit
